@@ -68,8 +68,10 @@ def volume_texts(rng):
         for m in rng.sample([66, 67, 68, 34, 35, 36, 32], 3):
             body.append(f"  {t} = N {m} 0")
         t += rng.choice([48, 96, 192])
+    # (the big section first, three small ones after it: whatever builds tracks side by side finishes the small ones first)
     drums = gen.render_sections([("Song", [f"  Resolution = {res}", "  Name = \"Pro Drums\""]), ("SyncTrack", ["  0 = TS 4", "  0 = B 140000"]),
-                                 ("Events", ["  0 = E \"section Intro\"", "  768 = E \"lyric Hey\""]), ("ExpertDrums", body)])
+                                 ("Events", ["  0 = E \"section Intro\"", "  768 = E \"lyric Hey\""]), ("ExpertDrums", body),
+                                 ("EasyDrums", body[:8]), ("ExpertSingle", ["  0 = N 0 0", "  192 = N 1 0"]), ("MediumKeyboard", ["  96 = N 2 48"])])
     cues = ["lighting (chase)", "lighting (strobe)", "lighting ()", "crowd_clap", "crowd_noclap", "do_directed_cut", "next", "prev", "bonusfx",
             "HandMap_Default", "music_start", "verse", "chorus", "half_tempo"]
     ev = [f"  {96 * k} = E \"{rng.choice(cues)}\"" for k in range(700)]
@@ -107,12 +109,14 @@ def outcome_of(text, want=None, path_bytes_hex=None) -> dict:
 
         if _TMP is None:
             _TMP = tempfile.mkdtemp(prefix="vmon-c17-")
+            harness.add_siblings(_TMP)
             import atexit
             import shutil
 
             atexit.register(shutil.rmtree, _TMP, True)
         p = pathlib.Path(_TMP) / f"c{threading.get_ident()}.chart"
         p.write_bytes(bytes.fromhex(path_bytes_hex))
+        os.utime(p, ns=(1_600_000_000 * 10**9, 1_600_000_000 * 10**9))  # every file carries the same timestamps
         env.LOG.drain()
         try:
             c = harness.Chart.from_filepath(p) if sel is None else harness.Chart.from_filepath(p, want_tracks=sel)
@@ -284,6 +288,17 @@ def corpus(rng, n):
         texts.append(dict(v, text=sp, path_bytes_hex=sp.encode("utf-8").hex(), kind="valid"))
         texts.append(dict(v, text=sp, path_bytes_hex=sp.encode("utf-8").replace(b"[Song]", b"[Song]\r\n{\r\n  Artist = \"Mot\xf6rhead\"\r\n}\r\n[X]", 1).hex(),
                           kind="failing:not_utf8"))
+    # two texts of the SAME byte length, read from the same path with the same modification time (cp -p, rsync -t, archive extraction, a
+    # coarse filesystem clock): the second must be read, not remembered
+    if valid:
+        v2 = next((t for t in valid if " = B 1" in t["text"] and "\r" not in t["text"]), None)
+        if v2 is not None:
+            ta = v2["text"]
+            i_ = ta.index(" = B 1")
+            tb = ta[:i_ + 5] + ("2" if ta[i_ + 5] == "1" else "1") + ta[i_ + 6:]
+            k0 = len(texts)
+            texts.append(dict(v2, text=ta, path_bytes_hex=ta.encode("utf-8").hex(), kind="valid", follow=k0 + 1, same_stat=True))
+            texts.append(dict(v2, text=tb, path_bytes_hex=tb.encode("utf-8").hex(), kind="valid", follow=k0, same_stat=True))
     # a long run of star-power phrases without notes, then notes inside the last ones: per-index structures grow on first use
     npz = rng.choice([400, 600])
     phrases = [[10 * k, 5] for k in range(npz)]
@@ -452,7 +467,8 @@ def history(rec, rng, texts, base, steps):
             i = prev
         elif prev is not None and texts[prev].get("follow") is not None and r < 0.8:
             i = texts[prev]["follow"]
-            rec.cls("history:equal_looking_events_under_other_tempo_maps" if texts[prev].get("coinciding") else "history:late_failure_then_sibling_with_other_tempi")
+            rec.cls("history:equal_looking_events_under_other_tempo_maps" if texts[prev].get("coinciding") else
+                    "history:same_path_same_size_same_mtime_other_content" if texts[prev].get("same_stat") else "history:late_failure_then_sibling_with_other_tempi")
         else:
             i = rng.randrange(len(texts))
         seq.append(i)
